@@ -36,3 +36,33 @@ def frameRecords (frame : ObName) (rows : List (List Slot)) (fromIdx : Nat) (toI
   frameRecordsFrom frame 0 (chunkedRows (window rows fromIdx toIdx) chunk)
 
 end Dlis
+
+namespace Dlis
+
+/-! ### data sources: datasets by name -/
+
+/-- what every source kind denotes: named datasets, each a list of rows (one slot per row) -/
+abbrev DataSrc := List (PStr × List Slot)
+
+def lookupDs (src : DataSrc) (name : PStr) : Option (List Slot) :=
+  match src with
+  | [] => none
+  | (k, v) :: rest => if k = name then some v else lookupDs rest name
+
+/-- `HDF5DataWrapper`: a leading slash is added to dataset paths that lack one -/
+def normPath (p : PStr) : PStr := match p with | 47 :: _ => p | _ => 47 :: p
+
+/-- rows of a frame: one slot per channel in the frame's channel order (`mapping` = dataset name per channel);
+the number of rows is that of the first dataset (as in `SourceDataWrapper.__init__`) -/
+def frameRowsOf (src : DataSrc) (mapping : List PStr) : Except Err (List (List Slot)) :=
+  match mapping.mapM (lookupDs src) with
+  | none => .error .value                       -- "No dataset ... found in the source data"
+  | some cols =>
+    match cols with
+    | [] => .ok []
+    | c0 :: _ =>
+      if cols.all (fun c => c.length == c0.length) then
+        .ok ((List.range c0.length).map fun i => cols.filterMap (fun c => c[i]?))
+      else .error .value                        -- datasets of different length
+
+end Dlis
